@@ -1627,6 +1627,36 @@ class Interp:
             c = self.cond_policy[k] if k < len(self.cond_policy) else True
             self.cond_log.append("%s:%d `%s` taken as %s" % (func.qualname, ln, unparse(node)[:60], c))
             return c
+        if base == "roll" and len(args) >= 2 and isinstance(args[0], SArr) and isinstance(args[1], int) and self.stn is not None and kwargs.get("axis") in (None, 0, -1) and len(args) == 2:
+            # np.roll(a, k): entry j is a[j - k], the first k entries come from the END of the array (periodic wrap, whatever the
+            # boundary conditions are)
+            a, k = args[0], args[1]
+            if k == 0:
+                return a.copy()
+            n = a.length
+            out = SArr(n, [])
+            if abs(k) > 4:
+                raise AnalysisError("%s:%d np.roll by more than 4 entries" % (func.qualname, ln))
+            if k > 0:
+                self.stn.assign_slice(out, k, None, self.stn.view(a, 0, n - k))
+                for j in range(k):
+                    self.stn.assign_elem(out, j, self.stn.elem(a, n - k + j))
+            else:
+                self.stn.assign_slice(out, 0, n + k, self.stn.view(a, -k, None))
+                for j in range(-k):
+                    self.stn.assign_elem(out, n + k + j, self.stn.elem(a, j))
+            return out
+        if base == "isclose" and len(args) >= 2 and self.cond_policy is None and not any(isinstance(x, (SArr, Vec)) for x in args[:2]):
+            # numpy's definition: |a - b| <= atol + rtol*|b| with the DEFAULTS rtol = 1e-5, atol = 1e-8 -- the absolute part is a
+            # literal threshold in the units of a and b (np.isclose(x, 0.) is |x| <= 1e-8)
+            a, b = self.lift(args[0]), self.lift(args[1])
+            rtol = args[2] if len(args) > 2 else kwargs.get("rtol", Fraction(1, 10 ** 5))
+            atol = args[3] if len(args) > 3 else kwargs.get("atol", Fraction(1, 10 ** 8))
+            lhs = d.func1("abs", d.sub(a, b))
+            rhs = d.mul(self.lift(rtol), d.func1("abs", b))
+            if not (_is_conc(atol) and atol == 0):
+                rhs = d.add(self.lift(atol), rhs)
+            return self._mask(d.cmp("<=", lhs, rhs))
         if base in ("min", "max", "amin", "amax") and len(args) == 1 and isinstance(args[0], (list, tuple)) and len(args[0]) >= 2 and "axis" not in kwargs \
                 and any(self.dom.is_value(x) and not _is_conc(x) for x in args[0]):
             e = AnalysisError("%s:%d np.%s of several arrays without axis" % (func.qualname, ln, base))
